@@ -1,35 +1,6 @@
 // ---------------------------------------------------------------------------------------------
 // C11 — signcryption round-trips every message and rejects every altered ciphertext.
 // ---------------------------------------------------------------------------------------------
-pub proof fn lemma_xor_involution(a: Seq<u8>, k: Seq<u8>)
-    requires a.len() == k.len(),
-    ensures xor_seq(xor_seq(a, k), k) =~= a
-{
-    assert forall|i: int| 0 <= i < a.len() implies #[trigger] xor_seq(xor_seq(a, k), k)[i] == a[i] by {
-        let x = a[i]; let y = k[i];
-        assert((x ^ y) ^ y == x) by(bit_vector);
-    }
-}
-
-/// unframing a frame gives the message back, for EVERY message length (also 0, and > 32)
-pub proof fn lemma_unframe_frame(m: Seq<u8>)
-    requires m.len() <= usize::MAX,
-    ensures sc_unframe(sc_frame(m)) == Some(m)
-{
-    let l = leb(m.len());
-    let body = l + m;
-    let f = sc_frame(m);
-    let padn: nat = if body.len() >= 32 { 0 } else { (32 - body.len()) as nat };
-    let pad = Seq::new(padn, |i: int| 0u8);
-    assert(f =~= l + (m + pad));
-    axiom_leb_round_trip(m.len(), m + pad);
-    let k = l.len();
-    assert(leb_peek(f) == Some(k));
-    assert(f.subrange(0, k as int) =~= l);
-    assert(leb_decode(f) == m.len());
-    assert(f.subrange(k as int, (k + m.len()) as int) =~= m);
-}
-
 /// the validity equation in discrete-log form:  dl(w) == h(enc(u)||v) * dl(u)
 pub proof fn lemma_sc_valid_iff(u: Pk, v: Seq<u8>, w: Sig, d: Seq<u8>)
     ensures sc_valid(u, v, w, d) <==> (u.dl() != 0 && w.dl() != 0 && fmul(sc_w_point(u, v, d).dl(), u.dl()) == w.dl())
